@@ -175,9 +175,12 @@ def summarize_op(f):
         return None, ["result is neither the input vector nor a fresh Vec::new(): %s" % sorted(show(x, f) for x in (inits or {ret0}))], atoms
     ret_forms = {ret0, ("local", rl), ("param", rl)}
 
+    replaced = [False]
+
     def effects(path, item_local=None):
         keep = new = 0
         found_set = None
+        replaced[0] = False
         for e in path.events:
             if e[0] == "call":
                 key, args = e[1], e[2]
@@ -191,10 +194,15 @@ def summarize_op(f):
                             keep += 1
                         else:
                             problems.append("pushes something that is neither the current item nor name/value of self: %s" % show(v, f))
-                    elif m not in ("new", "len", "is_empty", "iter", "into_iter"):
+                    elif m not in ("new", "len", "is_empty", "iter", "into_iter", "iter_mut", "retain"):  # (retain is read separately)
                         problems.append("result vector is modified by %s" % key)
             elif e[0] == "set" and e[3][0] == "const" and isinstance(e[3][1], bool):
                 found_set = (e[1], e[3][1])
+            elif e[0] == "write" and is_new(e[2]) and in_place and mentions(e[1], lambda x: x[0] == "call" and x[1].endswith("Iterator>::next")):
+                # `*item = Header { name, value }` while iterating the returned vector by `iter_mut()`:
+                # the item is replaced where it stands
+                new += 1
+                replaced[0] = True
         return keep, new, found_set
 
     def m_value(path):
@@ -223,6 +231,8 @@ def summarize_op(f):
                 problems.append("a loop path does not test the header name")
                 continue
             k, n, fs = effects(p, item_local)
+            if in_place:
+                k = 0 if replaced[0] else 1  # iterating the vector that is returned: items stay unless replaced
             per[mv].add((k, n))
             flags[mv].add(fs)
         for mv, key in ((True, "M"), (False, "N")):
@@ -230,8 +240,6 @@ def summarize_op(f):
                 problems.append("effects on the result list for %s depend on something else than the name test: %s" % (key, sorted(per[mv])))
             else:
                 k, n = next(iter(per[mv]))
-                if in_place:
-                    k = 1  # iterating by reference over the vector that is returned: items stay
                 summ[key] = (k, n)
         fm = {x for x in flags[True] if x}
         fn_ = {x for x in flags[False] if x}
@@ -280,6 +288,26 @@ def summarize_op(f):
         if not in_place:
             return None, ["no loop over the input and the input is not returned"], atoms
         summ["M"] = summ["N"] = (1, 0)
+        # `headers.retain(|h| keep(h))` on the vector that is returned: an in-place filter
+        from riolib.prov import resolve_captures
+        for bi, t_, cal in f.calls():
+            if cal and cal.adt == "std::vec::Vec" and cal.name == "retain" and pv.operand(t_["args"][0]) in ret_forms | {("param", 2)}:
+                cl = None
+                for tix in cal.substs:
+                    ty = f.facts.types[tix]
+                    if ty.get("k") == "closure":
+                        cl = f.facts.fns.get(ty["def"])
+                rets_c = {p.end[1] for p in Sym(cl, copies=True).paths() if p.end[0] == "ret"} if cl is not None else set()
+                c = is_name_cmp(next(iter(rets_c))) if len(rets_c) == 1 else None
+                if c is None:
+                    problems.append("retain with a predicate that is not a single name comparison")
+                    continue
+                iseq, a_, b_ = c
+                atom = ("call", next(iter(rets_c))[1], (resolve_captures(a_, cl), resolve_captures(b_, cl)))
+                atoms.append(atom)
+                # kept <=> predicate true
+                summ["M"] = (1, 0) if iseq else (0, 0)
+                summ["N"] = (0, 0) if iseq else (1, 0)
         allv = set()
         for p in s.paths():
             if p.end[0] != "ret":
